@@ -252,11 +252,11 @@ func (sc *Scenario) ForFormat(format string) []Want {
 // letters, fixed short lengths so that no path forks on a length): every
 // relation list has one distinct item, the list chosen by `extra` has two.
 type Meta struct {
-	Info                                                            *nfpm.Info
+	Info                                                           *nfpm.Info
 	Name, Maintainer, Homepage, License, Vendor, Section, Priority string
-	Desc                                                            string
-	Replaces, Provides, Depends, Recommends, Suggests, Conflicts    []string
-	Breaks, Predepends                                              []string
+	Desc                                                           string
+	Replaces, Provides, Depends, Recommends, Suggests, Conflicts   []string
+	Breaks, Predepends                                             []string
 }
 
 func word(name string, n int) string {
